@@ -13,6 +13,7 @@ def run(F, G, tier, seed):
     exprlaws.run_eqtext(chk, F)
     exprlaws.run_eqorder(chk, F)
     exprlaws.run_clonesym(chk, F)
+    exprlaws.run_deepclone(chk, F)
     return chk.finish(
         "Decides the structural clauses of C19: children reported == children constructed for every kind that can "
         "reach every construction site; clone/clone_deeper copy every member; equal compares everything but "
